@@ -36,7 +36,8 @@ class NameGraph:
                     for t in n.targets:
                         if isinstance(t, ast.Attribute) and isinstance(t.value, ast.Name) and f.params \
                                 and t.value.id == f.params[0]:
-                            self.attr_values.setdefault(t.attr, []).append((f, n.value))
+                            for v in A.local_values(f.node, n.value, f.params):
+                                self.attr_values.setdefault(t.attr, []).append((f, v))
         self._supplied_cache = {}
 
     def direct_supplied(self, f, nodes=None):
